@@ -215,7 +215,9 @@ def rule_layout(program, ctx, prop=P, rid="C02.layout"):
             else:
                 ctx.bad(finding_at(prop, rid, st, f"NostrQuery.{st.target.id} is not bounded below 2**{8*N}: to_bytes({N}) raises OverflowError inside the scanner"))
     tc = program.func("nostr_relay.storage.kv:TagIndex.convert")
-    ys = [y.value for y in ast.walk(tc) if isinstance(y, ast.Yield) and y.value is not None]
+    from ..lib import expand_aliases as _ea
+
+    ys = [_ea(tc, y.value) for y in ast.walk(tc) if isinstance(y, ast.Yield) and y.value is not None]
     if ys and all(ast.unparse(y) == "self.to_key((tag[0], str(tag[1])))" for y in ys):
         ctx.ok(rid, tc, "TagIndex.convert writes exactly to_key((name, str(value))) - the key the planner seeks with to_key on the filter value")
     else:
